@@ -466,3 +466,56 @@ PLAN['C15'] = {
     'assumptions': ['histories are breadth-first witnesses plus one block (shortest histories to every state), not all histories of a given length',
                     'deletion targets are given in ascending slot order'],
 }
+
+
+ALLKINDS = ['GetRoots', 'GetStump', 'Prove', 'Verify', 'GetLeafPosition', 'GetLeafHashPositions', 'GetHash',
+            'GetMissingPositions', 'GetNumLeaves', 'GetTreeRows', 'Write', 'VerifyPartialProof']
+
+
+def maplock(name, readers, nblocks, nsites, kinds, unlocked=(), maxcalls=2, emit=False, **kw):
+    st = {'kind': 'gen_replay' if emit else 'spec_check', 'name': name, 'module': 'MapLock', 'fam': 'lock', 'spec': 'Spec',
+          'constants': {'Readers': '{' + ', '.join('r%d' % i for i in range(1, readers + 1)) + '}', 'NBlocks': nblocks,
+                        'NSites': nsites, 'Kinds': S(kinds), 'UnlockedKinds': S(unlocked), 'MaxCalls': maxcalls,
+                        'EmitSchedules': 'TRUE' if emit else 'FALSE'},
+          'invariants': ['TypeOK', 'MutualExclusion', 'AtomicBlocks', 'NoDeadlock']}
+    if not emit:
+        st['properties'] = ['WriterProgress', 'BlockCompletes']
+    st.update(kw)
+    return st
+
+
+# --------------------------------------------------------------------------- C12
+PLAN['C12'] = {
+    'stages': lambda tier, seed: (
+        [maplock('maplock_mc', 2, 2, 3, ['GetRoots', 'GetNumLeaves']),
+         maplock('maplock_unlocked_neg', 2, 2, 3, ['GetRoots', 'GetNumLeaves'], unlocked=['GetNumLeaves'], expect_violation=True),
+         maplock('maplock_schedules', 2, 1, 4, ALLKINDS, maxcalls=1, emit=True, x='schedout={scratch}/schedules.json'),
+         partial('lock_replay', ['mod', 'vrem', 'ingest', 'prune', 'undo'], 3, 2, stack=1, und=1, fam='lockrun', race=True,
+                 x='sched={scratch}/schedules.json,persite=3,stress=2,maxtrace=30000', trace_module='MapLockTrace',
+                 harness_workers=2)] if tier == 'quick' else
+        [maplock('maplock_mc', 3, 2, 3, ['GetRoots', 'GetNumLeaves', 'Prove']),
+         maplock('maplock_unlocked_neg', 2, 2, 3, ['GetRoots', 'GetNumLeaves'], unlocked=['GetNumLeaves'], expect_violation=True),
+         maplock('maplock_schedules', 2, 1, 4, ALLKINDS, maxcalls=1, emit=True, x='schedout={scratch}/schedules.json'),
+         partial('lock_replay', ['mod', 'vrem', 'ingest', 'prune', 'undo'], 4, 2, stack=1, und=1, fam='lockrun', race=True,
+                 x='sched={scratch}/schedules.json,persite=12,stress=1,maxtrace=30000', trace_module='MapLockTrace',
+                 harness_workers=2, timeout=14000)]),
+    'rule': 'spec/MapLock.tla models one writer whose critical section passes through interior points, readers issuing queries, '
+            'and Go\'s RWMutex with writer preference; TLC checks over all interleavings that the lock discipline implies '
+            'AtomicBlocks (every query returns a whole-block state inside its call window), mutual exclusion, absence of deadlock '
+            'and writer progress, and that an unlocked getter violates AtomicBlocks (negative demonstration). The same model, with '
+            'all 12 query kinds, emits the schedules (writer suspended at interior point s while a set of queries is pending). '
+            'The harness (race build) replays them on the real MapPollard: writer operations and states are the behaviours of '
+            'spec/Partial.tla (Modify, Verify with remember, Ingest, Prune, Undo) plus Read into a fresh forest, for TotalRows 63 '
+            'and 0; the writer is suspended at the interior point through the verif hook, the queries are issued, the writer is '
+            'released; every result must equal the answer of the sequential whole-block state before or after the operation. '
+            'Selected histories are additionally run free (4 readers hammering all query kinds while the writer applies the '
+            'history); results must belong to a whole-block state inside [committed at call start, started at return], and any '
+            'report of the Go race detector is a violation. All calls are logged and validated by TLC against '
+            'spec/MapLockTrace.tla. Non-trivial: every line; distinct by (witness history, operation).',
+    'bounds': {'quick': 'model: 2 readers x 2 calls, 2 blocks, 3 interior points; replay: partial-forest behaviours n<=3, 3 schedules per interior point and case, stress on every 2nd history',
+               'thorough': 'model: 3 readers, 3 query kinds; replay: n<=4, 12 schedules per interior point and case, stress on every history'},
+    'exhaustive': {'quick': False, 'thorough': False},
+    'assumptions': ['the race detector only reports races that occur in the executed interleavings',
+                    'whole-block answers come from sequential runs of the same code (their correctness is the subject of C01, C02, C09, C10)',
+                    'interior points are the nine verif hook sites; suspension elsewhere inside a critical section is not exercised'],
+}
